@@ -98,3 +98,83 @@ def check_workers_succeeded(workers, what):
             f"{n_failed} worker process(es) failed during {what}; "
             "their error messages should have been printed above"
         )
+
+
+def put_work_item(queue, item, workers, what):
+    """Hand *item* to the worker processes through the bounded work *queue*.
+
+    Parameters
+    ----------
+    queue : :class:`multiprocessing.Queue`
+        The bounded queue that the workers take their items from.
+    item : object
+        The item to enqueue.
+    workers : iterable of :class:`multiprocessing.Process`
+        The worker processes draining the queue.
+    what : str
+        A short description of the parallelized operation, for the error
+        message.
+
+    Notes
+    -----
+    A plain blocking ``put()`` waits forever if the queue is full and every
+    worker has exited, which is what happens when the per-item processing
+    fails for every item. So wake up regularly and give up, with an exception,
+    if no worker is left to take the item.
+    """
+    from queue import Full
+
+    while True:
+        try:
+            queue.put(item, True, timeout=1)
+            return
+        except Full:
+            _fail_if_no_worker_left(queue, workers, what)
+
+
+def finish_work_queue(queue, workers, what):
+    """Wait until the workers have taken every item off the work *queue*, then
+    close it and flush it.
+
+    Parameters
+    ----------
+    queue : :class:`multiprocessing.Queue`
+        The bounded queue that the workers take their items from.
+    workers : iterable of :class:`multiprocessing.Process`
+        The worker processes draining the queue.
+    what : str
+        A short description of the parallelized operation, for the error
+        message.
+
+    Notes
+    -----
+    ``Queue.join_thread()`` cannot time out, and it never returns if items are
+    still waiting to be sent while every worker has exited. So first wait for
+    the queue to drain, keeping an eye on the workers.
+    """
+    import time
+
+    try:
+        while queue.qsize() > 0:
+            _fail_if_no_worker_left(queue, workers, what)
+            time.sleep(0.05)
+    except NotImplementedError:
+        pass  # no qsize() on this platform: fall through to the plain wait
+
+    queue.close()
+    queue.join_thread()
+
+
+def _fail_if_no_worker_left(queue, workers, what):
+    if any(w.is_alive() for w in workers):
+        return
+
+    # Nobody will ever read what is still buffered: don't wait for it.
+    queue.cancel_join_thread()
+    queue.close()
+
+    for w in workers:
+        w.join()
+
+    check_workers_succeeded(workers, what)
+    raise Exception(f"all worker processes exited before the end of {what}")
